@@ -83,7 +83,7 @@ Theorem raising_cleanup_fails_its_scenario cfg st id all_steps oe eff own st' re
   sr_status res = Some error /\ fld = true.
 Proof.
   unfold run_scenario. cbv zeta.
-  set (hc := negb (c_dry cfg) && c_expr cfg eff).
+  set (hc := negb (c_dry cfg) && sel cfg eff).
   assert (F1 : forall st1 hf e, (if hc then
         let '(sa, b1, e1) := run_tag_hooks cfg (push st) HBeforeTag own in
         let '(sb, b2, e2) := run_hook cfg sa HBeforeScenario id in (sb, b1 || b2, e1 ++ e2)
@@ -114,14 +114,14 @@ Proof.
   specialize (F3 _ _ _ eq_refl).
   unfold pop. destruct (stack st3) as [|fr rest].
   - intros E; inversion E; subst; clear E.
-    assert (A : existsb is_raising_cleanup (if c_expr cfg eff || c_show_skipped cfg
+    assert (A : existsb is_raising_cleanup (if sel cfg eff || c_show_skipped cfg
         then EFmt (FScenario id) :: map (fun s => EFmt (FStepAnn (st_id s))) all_steps else []) = false).
-    { destruct (c_expr cfg eff || c_show_skipped cfg); [|reflexivity]. cbn. clear. induction all_steps; cbn; auto. }
+    { destruct (sel cfg eff || c_show_skipped cfg); [|reflexivity]. cbn. clear. induction all_steps; cbn; auto. }
     rewrite !existsb_app', F1, A, F2, F3. cbn. discriminate.
   - intros E; inversion E; subst; clear E.
-    assert (A : existsb is_raising_cleanup (if c_expr cfg eff || c_show_skipped cfg
+    assert (A : existsb is_raising_cleanup (if sel cfg eff || c_show_skipped cfg
         then EFmt (FScenario id) :: map (fun s => EFmt (FStepAnn (st_id s))) all_steps else []) = false).
-    { destruct (c_expr cfg eff || c_show_skipped cfg); [|reflexivity]. cbn. clear. induction all_steps; cbn; auto. }
+    { destruct (sel cfg eff || c_show_skipped cfg); [|reflexivity]. cbn. clear. induction all_steps; cbn; auto. }
     rewrite !existsb_app', F1, A, F2, F3, cleanup_events_raise. cbn [orb]. intros CR. rewrite CR.
     cbn [sr_status]. split; [reflexivity|]. now rewrite orb_true_r.
 Qed.
